@@ -6,22 +6,22 @@ HERE = os.path.dirname(os.path.dirname(os.path.abspath(__file__)))
 CLAIMED = {
  "C16": dict(
     technique="deterministic simulation: seeded operation histories stepped against a cache-free reference registry; 2-thread baton-scheduled runs checked for linearizability",
-    level="seeded exploration of register/resolve/convert histories (4 registry flavours, detector and converter faults) compared operation by operation with the statement as executable reference; a share of runs splits the history over two simulated threads under a seeded line-level schedule and requires linearizability w.r.t. the same reference",
+    level="seeded exploration of register/resolve/convert histories (4 registry flavours, detector and converter faults, attribute markers incl. falsy ones, virtual subclasses, types held by List/Dict key/Dict value/Optional/Rule/data-class declarations made before or after a registration) compared operation by operation with the statement as executable reference; a share of runs splits the history over two simulated threads under a seeded line-level schedule and requires linearizability w.r.t. the same reference",
     note="reference = statement read literally (DESIGN 3.16); threaded mode limited to 6 operations and source-line pre-emption granularity; samples, does not enumerate",
     ref="3.16"),
  "C04": dict(
     technique="deterministic simulation: seeded fault plans at converter/hook/input-protocol seams, containment oracle, virtual step clock watchdog",
-    level="slice: error containment, body-not-entered and bounded termination under injected faults (leaf converter x 11 exception classes, transient faults, n-th call hook faults, n-th call input-protocol faults) across every API kind and wrapper; seeded exploration with fault-free control per plan, minimised fresh-interpreter replay",
+    level="slice: error containment, body-not-entered / nothing-unconverted-gets-through and bounded termination under injected faults: leaf converter x 11 exception classes (persistent, transient), n-th call hook faults (pre/post_validate, __validate__, key __str__, object __repr__/__ne__/__eq__/__str__), input-protocol faults of nested and top-level (Cls.__from__) mappings and lists, hostile scalars incl. self-referential lists; across rule/type_transform/Schema/DataClass/four function wrapper kinds (eager and lazy, typed send), containers, | ^ & and contains-constrained types at the top level and nested, typed and forbidden extras, cast_keyword_str, discriminated fields, a field under two spellings; fault-free control per plan; minimised fresh-interpreter replay",
     note="totality over the whole value domain is NOT claimed (only a pool of hostile scalars rides along for the step watchdog); faults are placed below the top level only; non-Exception conditions are not injected (DESIGN 3.4, 6)",
     ref="3.4"),
  "C10": dict(
     technique="deterministic simulation: seeded leaf + structural fault injection, fail-fast vs collecting replicas, injected fault set as ground truth",
-    level="seeded exploration of (declaration, input, leaf fault set, dropped/excess keys, max_errors) plans executed fail-fast, collecting and fault-free; the failing items are injected, verdict/value/reported-set clauses of the statement checked exactly",
+    level="seeded exploration of (declaration over leaf, constrained (Rule) leaf, | & ^ types, containers, discriminated fields, alias_from, dependencies, typed @property; input; leaf fault set; dropped required keys; excess keys; one field under two spellings; max_params; ignore_constraints; max_errors; both lookup strategies) plans executed fail-fast, collecting and fault-free; the failing items are injected, verdict/value/reported-set/error-kind/cap clauses of the statement checked exactly",
     note="item failure = fail-fast parse of the item alone under the same faults; names compared as a set; samples, does not enumerate (DESIGN 3.10)",
     ref="3.10"),
  "C11": dict(
     technique="deterministic simulation: seeded fault-injection at the converter seam, metamorphic reference, delta-debugged replay",
-    level="seeded exploration of (declaration, policy triple, input, injected fault set) plans; the failing elements are injected, so the oracle's ground truth is the fault plan itself; every violation is minimised and replayed in a fresh interpreter",
+    level="seeded exploration of (declaration kind rule/Schema/DataClass/function, container tree over leaf and constrained leaf types incl. Optional-wrapped containers and data-class elements, length bounds, mode-dependent required fields, deferred defaults, dependencies, typed property outputs, typed additions, policy triple at class level or only at run time, input, injected fault set) plans; the failing elements are injected, so the oracle's ground truth is the fault plan itself; a fault-free run must equal the strict result; every violation is minimised and replayed in a fresh interpreter",
     note="trusts the harness leaf converter and the reference's reading of the statement (DESIGN 3.11); samples, does not enumerate; fixed-length tuples excluded",
     ref="3.11"),
 }
@@ -29,20 +29,20 @@ CLAIMED = {
 CLAIMED.update({
  "C06": dict(
     technique="deterministic simulation: tuning-knob flip -- two replicas (data_first_search on/off, set at class level or at run time) driven by the same seeded plan with leaf and structural faults, fail-fast and collecting; histories compared",
-    level="seeded exploration of (declaration with aliases/alias_from/case-insensitivity/defaults/dependencies/no_input/mode/on_error, class options, input key spellings incl. one field under two spellings, leaf faults) plans, each executed under both knob values; verdict, parsed data, and the (error class, item) multiset must agree",
+    level="seeded exploration of (declaration with aliases/alias_from/case-insensitivity/defaults/dependencies/no_input/mode/on_error, inherited fields re-declared or dropped by the class under test, an alias spelled like a method, class options or options given only at run time, earlier parses under other run-time options, input key spellings incl. one field under two spellings, leaf faults) plans, each executed under both knob values (class level or run time), fail-fast and collecting; verdict, parsed data, and the (error class, item) multiset must agree",
     note="fail-fast with >=2 failing items: only 'both reject' is required (DESIGN 3.6); warnings not compared; samples, does not enumerate",
     ref="3.6"),
  "C20": dict(
     technique="deterministic simulation: real threads under a baton scheduler (sys.settrace line pre-emption inside utype/), seeded schedules (uniform/targeted/quantum/PCT), linearizability against sequential twin worlds, schedule minimisation and replay",
-    level="seeded exploration of 2-3 thread schedules at source-line granularity over first parses with pending forward references (module-level and function-local classes), conversions racing registrations, concurrent decoration/first calls and warmed steady state; each run's per-operation outcomes must equal those of some sequential order consistent with real time",
-    note="line granularity (not bytecode); <=6 operations per run; cooperative lock shim replaces utype's locks so blocking is scheduled too; samples, does not enumerate (DESIGN 3.20)",
+    level="seeded exploration of 2-3 thread schedules (uniform/targeted/quantum/PCT/anchor-PCT; source-line granularity, in a share of runs bytecode granularity inside the anchor functions) over first parses with pending forward references (module-level and function-local classes, functions, generator functions), a first use that fails, conversions racing registrations (incl. lookup | register | later lookup), concurrent decoration/first calls, warmed steady state, and a thread declaring classes/functions with the same annotation spellings; each run's per-operation outcomes must equal those of some sequential order consistent with real time; deadlock and step-budget overruns are violations",
+    note="<=6 operations per run; cooperative lock shim replaces utype's locks so blocking is scheduled too; races that need two narrow windows are hit ~2 per 10000 runs (thorough tier); samples, does not enumerate (DESIGN 3.20)",
     ref="3.20"),
 })
 
 CLAIMED.update({
  "C07": dict(
     technique="deterministic simulation: seeded operation-and-fault histories on one data-class instance (history machine), statement invariants evaluated after every operation, failure atomicity via before/after snapshots, delta-debugged replay",
-    level="seeded exploration of 6-24 step histories of every public mutator (setattr/delattr, item set/delete by name, alias and case variant, update, pop, popitem, setdefault, clear, |=, copy) with valid/convertible/invalid arguments and injected faults (leaf converter, property-setter hook at its n-th call, input-protocol failure of the mapping given to update/|=) on Schema and DataClass worlds; invariants I1-I7 of the statement checked after every step on every live instance",
+    level="seeded exploration of 6-24 step histories of every public mutator (setattr/delattr, item set/delete by name, alias and case variant, update, pop, popitem, setdefault, clear, |=, copy, another instance as operand) with valid/convertible/invalid arguments and injected faults (leaf converter, property-setter hook at its n-th call, input-protocol failure of the mapping given to update/|=) on Schema and DataClass worlds incl. inherited fields with subclass options, mode-dependent required fields under class or run-time options, Final+Field, collect_errors classes, an exclude-policy field, properties depending on fields (also on a no_output field); invariants I1-I7 of the statement checked after every step on every live instance",
     note="public-API views only; property compared with its definition only while its dependencies are present; multi-key update may stop half-way (DESIGN 3.7); samples, does not enumerate",
     ref="3.7"),
 })
@@ -50,12 +50,12 @@ CLAIMED.update({
 CLAIMED.update({
  "C17": dict(
     technique="deterministic simulation: seeded event-order scheduling of define / first-use / premature-use / other-module events over a live module, outcomes compared with a direct-reference twin world (acyclic) or a structural reference model (cyclic); delta-debugged replay",
-    level="seeded exploration of (program of 2-3 mutually referencing data classes + decorated function or a function-local class, spelling vector incl. 'B', Optional['B']/List/Dict/Union, whole-quoted, postponed evaluation, Self, constrained alias by string; definition order; first-use order; premature uses; a second module with the same class names defined and used in between; JSON-schema generation) histories; every non-premature use must return what the direct-reference program returns",
+    level="seeded exploration of (program of 2-3 mutually referencing data classes with up to three spellings of one name, constrained aliases with different constraints, typed property outputs, subclasses up to three levels, decorated functions incl. one usable while a name is undefined, ignore_params, generator functions with referenced yield/return types, or a function-local class incl. one shadowing a module-level name; spelling vector incl. 'B', Optional['B']/List/Dict/Union, whole-quoted, postponed evaluation, Self; definition order; first-use order; premature uses; a second module with the same class names defined and used in between; JSON-schema generation) histories; every non-premature use must return what the direct-reference program returns",
     note="inputs restricted to nested dicts with int leaves and one invalid leaf so that the reference does not model conversions; cyclic programs use the structural model (cross-checked against the direct twin on acyclic runs: 0 disagreements so far); samples, does not enumerate (DESIGN 3.17)",
     ref="3.17"),
  "C19": dict(
     technique="deterministic simulation: seeded operation-and-fault histories (parses, calls, abandoned generators, result mutations, late and foreign definitions) with hook and leaf faults; history-independence oracle = same operation alone in a fresh twin world; input snapshots; alias isolation after mutation",
-    level="seeded exploration of 5-18 step histories over Schema/DataClass/force_default classes, decorated functions and generators with mutable defaults and factories, function-local classes, lazily resolved references, a second module with the same class names; P1 caller inputs unchanged, P2 mutating a result changes no other live result, P3 every operation's outcome (and the pristine probes appended to every history) equals that of the same operation alone in a fresh world",
+    level="seeded exploration of 5-18 step histories over Schema/DataClass/force_default classes, decorated functions and generators with mutable defaults (plain, Annotated, nested, factories incl. one handing out a shared template), Lax-bounded bare lists, JSON-text inputs, exclude+dependency fields, function-local classes, lazily resolved references incl. a function tolerant of a late class, a second module with the same class names, Cls(mapping, **kw); P1 caller inputs unchanged, P2 mutating a result changes no other live result, P3 every operation's outcome (and the pristine probes appended to every history) equals that of the same operation alone in a fresh world; a sample of histories and probes is re-executed in fresh interpreters to expose state kept in module or class attributes",
     note="twin = same source under fresh names in the same process; an operation in which an n-th-call hook fault fired is not compared (later ones are); samples, does not enumerate (DESIGN 3.19)",
     ref="3.19"),
 })
@@ -63,7 +63,7 @@ CLAIMED.update({
 CLAIMED.update({
  "C08": dict(
     technique="deterministic simulation: consumer and body scripts stepped on a virtual-time asyncio loop (seeded ready-queue order, clock jumps, cancellation at loop iterations, wait_for deadlines) and a seeded step order for sync generators; refinement against the undecorated function behind an ideal converting proxy",
-    level="slice (generator/coroutine/async-generator wrappers, eager and lazy): seeded exploration of 1-3 consumers x body scripts (yield/sleep/return/raise) x consumer protocols (next/send, anext/asend, throw/close/drop, pauses, per-op timeouts) x leaf faults on parameter/yielded/sent/returned payloads x task cancellation; per-consumer histories and what the body received must equal the reference up to the first fault, afterwards only: no non-conforming value delivered, body not resumed after a conversion failure, loop reaches quiescence",
+    level="slice (generator/coroutine/async-generator wrappers, eager and lazy, plain functions and static methods, collect_errors on/off, annotations given as objects or as whole strings over late names): seeded exploration of 1-3 consumers x body scripts (yield/sleep/return/return-a-coroutine/raise) x consumer protocols (next/send, anext/asend, throw/close/drop, pauses, per-op timeouts) x leaf faults on parameter/yielded/sent/returned payloads x task cancellation; per-consumer histories and what the body received must equal the reference up to the first fault, afterwards only: no non-conforming value delivered, body not resumed after a conversion failure, loop reaches quiescence",
     note="the binding clause of C08 (a pure function of signature and call) is NOT decided; when the wrapped body is finalised is not compared; yielded generator objects excluded (DESIGN 3.8)",
     ref="3.8"),
 })
